@@ -57,7 +57,10 @@ theorem getNode_cases (s : NodeStore) (k : NodeLabel) (ep : Nat) :
     split
     · cases r.previous with
       | none => exact .inr rfl
-      | some p => exact .inl ⟨p, rfl⟩
+      | some p =>
+        by_cases hp : p.lastEpoch > ep
+        · exact .inr (by simp [hp])
+        · exact .inl ⟨p, by simp [hp]⟩
     · exact .inl ⟨_, rfl⟩
 
 /-- `writeNode` never fails; it replaces the record under `n.label` by one whose latest version is `n` -/
